@@ -99,8 +99,8 @@ def run(ctx, FS):
                     direct_bad.setdefault(p, set()).add((ep, kr))
         # functions that (transitively) reach a bad external callee
         rev = {}
-        for s, ds in G.edges.items():
-            for d in ds:
+        for s in G.nodes:
+            for d in G.all_edges(s):
                 rev.setdefault(d, set()).add(s)
         tainted = {}
         work = list(direct_bad)
